@@ -153,6 +153,9 @@ class Recorder(object):
 
     def run_case(self, case):
         self.evals += 1
+        # what the judge sees is exactly what a replay file would contain
+        # (this also removes any aliasing between parts of a generated case)
+        case = json.loads(json.dumps(case))
         try:
             info = self.judge_once(case)
         except Violation as v:
